@@ -663,6 +663,7 @@ func runC17() int {
 	r.Count("programs", int64(len(eps)))
 	r.Extra("entry_point_map_modules", len(eps))
 	r.ParallelFor(len(eps), func(i int) { c17EPModule(r, eps[i]) })
+	c17LinkPass(r) // vertex/fragment linking under hlsl.Options.FragmentEntryPoint, every declaration order of the fragment inputs
 	if len(progs) > 0 {
 		p := progs[len(progs)/2]
 		r.Sample(map[string]any{"program": p.Sig, "source": p.Src})
